@@ -72,6 +72,8 @@ func (s *Sort) FieldByName(n string) *Field {
 type Sorts struct {
 	byKey  map[string]*Sort
 	byName map[string]*Sort
+	boxPairs map[string][]boxPair
+	iconvs   []iconvPair
 	decls  []string // SMT declarations in dependency order
 	inprog map[string]bool
 	prog   *Program
@@ -92,7 +94,7 @@ var (
 )
 
 func NewSorts(p *Program) *Sorts {
-	s := &Sorts{byKey: map[string]*Sort{}, byName: map[string]*Sort{}, inprog: map[string]bool{}, prog: p, strs: map[string]string{}}
+	s := &Sorts{byKey: map[string]*Sort{}, byName: map[string]*Sort{}, boxPairs: map[string][]boxPair{}, inprog: map[string]bool{}, prog: p, strs: map[string]string{}}
 	SRat.Fields = []Field{{"num", "rnum", SInt}, {"den", "rden", SInt}}
 	for _, b := range []*Sort{SInt, SBool, SReal, SStr, SBig, SRat, SErr, SFn} {
 		s.byName[b.Name] = b
@@ -542,8 +544,52 @@ func (ss *Sorts) BoxFn(from, to *Sort, goType types.Type) (string, string) {
 		dt := ss.DynTypeFn(to)
 		ss.decls = append(ss.decls, fmt.Sprintf("(declare-fun %s (%s) %s)\n(declare-fun %s (%s) %s)\n(assert (forall ((v %s)) (! (and (= (%s (%s v)) v) (= (%s (%s v)) %s)) :pattern ((%s v)))))",
 			fn, from.Name, to.Name, un, to.Name, from.Name, from.Name, un, fn, dt, fn, ss.StrConst("type:"+tname), fn))
+		bp := boxPair{from, goType, tname}
+		ss.boxPairs[to.Name] = append(ss.boxPairs[to.Name], bp)
+		for _, ic := range ss.iconvs {
+			if ic.to == to {
+				ss.iconvUnbox(ic, bp)
+			}
+		}
 	}
 	return fn, un
+}
+
+type boxPair struct {
+	from   *Sort
+	goType types.Type
+	tname  string
+}
+
+type iconvPair struct{ from, to *Sort }
+
+// IConvFn declares (once) the conversion of a value of one opaque interface sort into another: the dynamic
+// type and the boxed value are preserved (Go: converting an interface value to another interface type).
+func (ss *Sorts) IConvFn(from, to *Sort) string {
+	fn := "iconv_" + mangle(from.Name) + "_" + mangle(to.Name)
+	key := "iconv:" + fn
+	if _, ok := ss.byName[key]; !ok {
+		ss.byName[key] = to
+		da, db := ss.DynTypeFn(from), ss.DynTypeFn(to)
+		ss.decls = append(ss.decls, fmt.Sprintf("(declare-fun %s (%s) %s)\n(assert (forall ((v %s)) (! (= (%s (%s v)) (%s v)) :pattern ((%s v)))))\n(assert (= (%s %s) %s))",
+			fn, from.Name, to.Name, from.Name, db, fn, da, fn, fn, ss.Zero(from), ss.Zero(to)))
+		ic := iconvPair{from, to}
+		ss.iconvs = append(ss.iconvs, ic)
+		for _, bp := range append([]boxPair(nil), ss.boxPairs[to.Name]...) {
+			ss.iconvUnbox(ic, bp)
+		}
+	}
+	return fn
+}
+
+func (ss *Sorts) iconvUnbox(ic iconvPair, bp boxPair) {
+	if bp.from == ic.from {
+		return
+	}
+	_, unA := ss.BoxFn(bp.from, ic.from, bp.goType)
+	_, unB := ss.BoxFn(bp.from, ic.to, bp.goType)
+	fn := "iconv_" + mangle(ic.from.Name) + "_" + mangle(ic.to.Name)
+	ss.decls = append(ss.decls, fmt.Sprintf("(assert (forall ((v %s)) (! (= (%s (%s v)) (%s v)) :pattern ((%s (%s v))))))", ic.from.Name, unB, fn, unA, unB, fn))
 }
 
 // SprintfFn declares (once) an uninterpreted function standing for fmt.Sprintf with a constant format:
